@@ -64,10 +64,10 @@ func scenarioC08Slow(c *Ctx, r *Rng, hold time.Duration) {
 	atomic.StoreInt32(&armed, 1)
 	select {
 	case <-entered:
-	case <-time.After(2 * time.Second):
+	case <-time.After(10 * time.Second):
 		close(gate)
 		w.closer.Close()
-		c.Cov.Fail(Failure{Kind: "crash", Clause: "setup", Signature: sig + "-no-pass", Line: line(), Reply: "no periodic pass reached the reporter within 2s"})
+		c.Cov.Fail(Failure{Kind: "crash", Clause: "setup", Signature: sig + "-no-pass", Line: line(), Reply: "no periodic pass reached the reporter within 10s"})
 		return
 	}
 	// recorded while the pass is stuck, before Close is called: must be delivered as well
